@@ -110,10 +110,41 @@ def directed(rng, v, siblings=(), budget=24):
         for i in rng.sample(range(0, max(1, len(v) - 3)), min(6, max(1, len(v) - 3))):
             out.append(v[:i] + b'\x00\x00\x00\x00' + v[i + 4:])
             out.append(v[:i] + b'\xff\xff\xff\xff' + v[i + 4:])
+        # a whole field blanked: coordinates, moduli, nonces (zero, one, all ones), of the usual field sizes, at any
+        # offset and in particular as the last bytes of the buffer
+        for ln in (8, 16, 20, 28, 32, 48, 64, 66, 128):
+            if len(v) > ln:
+                for i in {len(v) - ln, len(v) - 2 * ln if len(v) > 2 * ln else 0, rng.randrange(len(v) - ln)}:
+                    fill = rng.choice([bytes(ln), bytes(ln - 1) + b'\x01', b'\xff' * ln])
+                    out.append(v[:i] + fill + v[i + ln:])
     for s in list(siblings)[:4]:
         out.append(s)
     rng.shuffle(out)
     return out[:budget]
+
+
+def inflate_counts(rng, v, limit):
+    """Every place that looks like a count or length field (a small 4-, 3-, 2- or 1-byte big- or little-endian number) set
+    to the largest value of its width, with the data after it kept, cut short or removed: a declared count or length may
+    cost a length check, never work proportional to its value."""
+    first, rest = [], []
+    n = len(v)
+    for w in (4, 3, 2, 1):
+        for i in range(0, n - w + 1):
+            val = int.from_bytes(v[i:i + w], 'big')
+            val_le = int.from_bytes(v[i:i + w], 'little')
+            if (w > 1 and (val < 4096 or val_le < 4096)) or (w == 1 and 0 < val < 64):
+                big = b'\xff' * w
+                # 32-bit numbers up to 16 are the typical item counts: always probed, the others sampled
+                bucket = first if (w == 4 and min(val, val_le) <= 16) else rest
+                bucket.append(v[:i] + big + v[i + w:])
+                bucket.append(v[:i] + big)
+                bucket.append(v[:i] + big + v[i + w:i + w + 8])
+    if len(first) > 8 * limit:
+        first = rng.sample(first, 8 * limit)
+    if len(rest) > limit:
+        rest = rng.sample(rest, limit)
+    return first + rest
 
 
 def qualname(cls):
